@@ -167,6 +167,12 @@ class Layout:
         base = ['v%d' % i for i in range(self.n)]
         if rename == 1:   # order-reversing names
             base = ['z%d' % (9 - i) for i in range(self.n)]
+        if rename == 4:   # names are only unique per component: the k-th variable of each component is called w<k>
+            cnt = {0: 0, 1: 0}
+            base = []
+            for i in range(self.n):
+                base.append('w%d' % cnt[place[i]])
+                cnt[place[i]] += 1
         self.home_name = {i: base[i] for i in range(self.n)}
         self.home_name['t'] = 't' if rename != 1 else 'a_time'
         self.cname = {c: 'comp%d' % c for c in (0, 1)}
@@ -188,7 +194,7 @@ class Layout:
                     if c2 != cc:
                         continue
                     nm = self.home_name[j]
-                    if self.rename == 2:      # twins get fresh names
+                    if self.rename in (2, 4):      # twins get fresh names
                         nm = '%s_in%d' % (self.home_name[j], cc)
                     elif self.rename == 3:    # a twin borrows the home name of ANOTHER variable that lives in the other component
                         for k in range(self.n):
